@@ -77,9 +77,6 @@ func TestVerifC08Peerstores(t *testing.T) {
 		if a.stop {
 			break
 		}
-		if !a.mine() {
-			continue
-		}
 		var cands []c08Cand
 		for _, o := range keys {
 			kind := "id-of-other-key"
@@ -119,6 +116,9 @@ func TestVerifC08Peerstores(t *testing.T) {
 		for ci, c := range cands {
 			if a.over("peerstore cases") {
 				break
+			}
+			if !a.mine() {
+				continue
 			}
 			own := c.id == k.ID
 			rec := &peer.PeerRecord{PeerID: c.id, Addrs: addrs, Seq: uint64(ci + 1)}
